@@ -1472,11 +1472,27 @@ def _project_by_spec(doc, proj_spec, is_include):
         if isinstance(value, dict):
             output[key] = _project_by_spec(value, proj_spec[key], is_include)
         elif isinstance(value, list):
-            output[key] = [_project_by_spec(array_value, proj_spec[key], is_include)
-                           for array_value in value if isinstance(array_value, dict)]
+            output[key] = _project_array_by_spec(value, proj_spec[key], is_include)
         elif not is_include:
             output[key] = value
 
+    return output
+
+
+def _project_array_by_spec(values, proj_spec, is_include):
+    """Project every item of an array: documents by the spec, nested arrays item by item.
+
+    Other items have no fields: an inclusion has nothing to show of them, an exclusion nothing
+    to remove from them.
+    """
+    output = []
+    for array_value in values:
+        if isinstance(array_value, dict):
+            output.append(_project_by_spec(array_value, proj_spec, is_include))
+        elif isinstance(array_value, list):
+            output.append(_project_array_by_spec(array_value, proj_spec, is_include))
+        elif not is_include:
+            output.append(array_value)
     return output
 
 
